@@ -42,3 +42,101 @@ Example value_compare_refuted :
   rq_run rq_init ops = [Some (basic_header (bs "u") (bs "old")); Some (basic_header (bs "u") (bs "old"))] /\
   rqv_run (mkRqv None None None) ops = [Some (basic_header (bs "u") (bs "old")); Some (basic_header (bs "u") (bs "new"))].
 Proof. split; vm_compute; reflexivity. Qed.
+
+(* ---------- clones: each client transmits its own credentials ---------- *)
+From Coq Require Import Lia.
+
+Lemma set_nth_length {A} n (x : A) l : length (set_nth n x l) = length l.
+Proof. revert n. induction l as [|y r IH]; intros [|n]; cbn; auto. Qed.
+
+Lemma nth_set_nth_eq {A} n (x d : A) l : n < length l -> nth n (set_nth n x l) d = x.
+Proof. revert n. induction l as [|y r IH]; intros [|n] H; cbn in *; try lia; auto. apply IH. lia. Qed.
+
+Lemma nth_set_nth_neq {A} n m (x d : A) l : n <> m -> nth m (set_nth n x l) d = nth m l d.
+Proof.
+  revert n m. induction l as [|y r IH]; intros [|n] [|m] H; cbn; try reflexivity; try congruence.
+  apply IH. congruence.
+Qed.
+
+(* the heap state represents the per-client credentials: distinct clients own distinct maps *)
+Definition cl_rep (s : cl_state) (creds : list (option bytes)) : Prop :=
+  length (cl_owner s) = length creds /\
+  NoDup (cl_owner s) /\
+  (forall i, i < length creds -> nth i (cl_owner s) 0 < length (cl_heap s)) /\
+  (forall i, i < length creds -> cl_get s i = nth i creds None).
+
+Lemma NoDup_nth_inj (l : list nat) i j : NoDup l -> i < length l -> j < length l ->
+  nth i l 0 = nth j l 0 -> i = j.
+Proof. intros ND Hi Hj E. apply (proj1 (NoDup_nth l 0) ND i j Hi Hj E). Qed.
+
+Lemma NoDup_snoc (l : list nat) x : NoDup l -> ~ In x l -> NoDup (l ++ [x]).
+Proof.
+  induction l as [|y r IH]; intros ND Hn; cbn.
+  - constructor; [intros []|constructor].
+  - inversion ND as [|? ? Hy Hr]; subst. constructor.
+    + rewrite in_app_iff. intros [H|[H|[]]]; [contradiction|]. subst. apply Hn. left. reflexivity.
+    + apply IH; auto. intros H. apply Hn. right. exact H.
+Qed.
+
+Lemma cl_rep_set s creds i h : cl_rep s creds -> i < length creds ->
+  cl_rep (cl_set s i h) (set_nth i (Some h) creds).
+Proof.
+  intros [HL [ND [HB HV]]] Hi. unfold cl_set, cl_rep, cl_get in *. cbn [cl_heap cl_owner].
+  rewrite !set_nth_length. repeat split; auto.
+  intros j Hj. destruct (Nat.eq_dec i j) as [->|Hne].
+  - rewrite !nth_set_nth_eq; auto.
+  - rewrite (nth_set_nth_neq i j) by exact Hne. rewrite nth_set_nth_neq; [apply HV; exact Hj|].
+    intros E. apply Hne. apply (NoDup_nth_inj (cl_owner s)); auto; lia.
+Qed.
+
+Lemma cl_rep_clone s creds i : cl_rep s creds -> i < length creds ->
+  cl_rep (cl_clone false s i) (creds ++ [nth i creds None]).
+Proof.
+  intros [HL [ND [HB HV]]] Hi. unfold cl_clone, cl_rep, cl_get in *. cbn [cl_heap cl_owner].
+  rewrite !app_length. cbn [length]. repeat split.
+  - lia.
+  - apply NoDup_snoc; [exact ND|]. intros Hin. apply (In_nth _ _ 0) in Hin as [j [Hj E]].
+    rewrite HL in Hj. specialize (HB j Hj). lia.
+  - intros j Hj. destruct (Nat.eq_dec j (length creds)) as [->|Hne].
+    + rewrite <- HL, nth_middle. lia.
+    + rewrite app_nth1 by lia. specialize (HB j). lia.
+  - intros j Hj. destruct (Nat.eq_dec j (length creds)) as [->|Hne].
+    + replace (nth (length creds) (cl_owner s ++ [length (cl_heap s)]) 0) with (length (cl_heap s))
+        by (rewrite <- HL, nth_middle; reflexivity).
+      rewrite !nth_middle. apply HV. exact Hi.
+    + rewrite (app_nth1 (cl_owner s)) by lia. rewrite (app_nth1 creds) by lia.
+      rewrite app_nth1 by (apply HB; lia). apply HV. lia.
+Qed.
+
+Theorem clones_transmit_own ops : forall s creds, cl_rep s creds -> ops_ok (length creds) ops = true ->
+  cl_run_with false s ops = cls_run creds ops.
+Proof.
+  induction ops as [|o r IH]; intros s creds R Hok; [reflexivity|].
+  destruct o as [i u p|i t|i|i]; cbn [ops_ok] in Hok; apply andb_prop in Hok as [Hi Hr];
+    apply Nat.ltb_lt in Hi; cbn [cl_run_with cls_run].
+  - apply IH; [now apply cl_rep_set|]. now rewrite set_nth_length.
+  - apply IH; [now apply cl_rep_set|]. now rewrite set_nth_length.
+  - apply IH; [now apply cl_rep_clone|]. rewrite app_length. cbn [length].
+    now replace (length creds + 1) with (S (length creds)) by lia.
+  - destruct R as [HL [ND [HB HV]]]. rewrite (HV i Hi). f_equal.
+    apply IH; [repeat split; assumption|exact Hr].
+Qed.
+
+Lemma cl_rep_init : cl_rep cl_init [None].
+Proof.
+  unfold cl_rep, cl_init, cl_get. cbn. repeat split; auto.
+  - constructor; [intros []|constructor].
+  - intros i Hi. destruct i; [lia|lia].
+  - intros i Hi. destruct i; [reflexivity|lia].
+Qed.
+
+Corollary clones_from_new ops : ops_ok 1 ops = true -> cl_run cl_init ops = cls_run [None] ops.
+Proof. intros H. apply clones_transmit_own; [apply cl_rep_init|exact H]. Qed.
+
+(* the clone sharing the original's header map (seeded change e-m3): credentials given to the
+   clone go out from the original *)
+Example shared_header_map_refuted :
+  let ops := [KBasic 0 (bs "alice") (bs "a-pw"); KClone 0; KBasic 1 (bs "bob") (bs "b-pw"); KSend 0; KSend 1] in
+  cl_run cl_init ops = [Some (basic_header (bs "alice") (bs "a-pw")); Some (basic_header (bs "bob") (bs "b-pw"))] /\
+  cl_run_with true cl_init ops = [Some (basic_header (bs "bob") (bs "b-pw")); Some (basic_header (bs "bob") (bs "b-pw"))].
+Proof. split; vm_compute; reflexivity. Qed.
